@@ -7,6 +7,7 @@ import Rough.Driver.Client
 import Rough.Driver.Config
 import Rough.Driver.Envelope
 import Rough.Driver.Procs
+import Rough.Driver.Reqs
 open Rough Rough.Driver
 
 def dispatch (op : String) (args : List String) (impl : String) : Verdict :=
@@ -32,6 +33,8 @@ def dispatch (op : String) (args : List String) (impl : String) : Verdict :=
   | "sd" => opSd args impl
   | "clientreal" => opClientReal args impl
   | "procleak" => opProcLeak args impl
+  | "req" => opReq args impl
+  | "grease" => opGrease args impl
   | "respond" => opRespond (args ++ [impl])
   | _ => bad ("unknown op " ++ op)
 
